@@ -349,8 +349,13 @@ func c14Assignable(typ, value string) bool {
 		vt = "null"
 	case "pre ${{ 1 }} post":
 		vt = "string"
+	case "True", "TRUE", "False", "FALSE":
+		vt = "bool" // the other spellings of the YAML core schema
+	case "~", "Null", "NULL":
+		vt = "null"
 	default:
-		// other plain scalars: a number iff the YAML core schema reads them as one
+		// other plain scalars: a number iff the YAML core schema reads them as one; a quoted scalar
+		// is a string whatever it holds
 		if c14YAMLNumberRe.MatchString(value) {
 			vt = "number"
 		}
@@ -367,6 +372,51 @@ func c14Assignable(typ, value string) bool {
 		return true
 	}
 	return true
+}
+
+// c14LintBoth lints the caller with the callee's interface read from its file and, in a second run,
+// derived from the callee's AST (callee linted first).
+func c14LintBoth(dir, callee, caller string) (fileErrs, astErrs []*Error, err error) {
+	calleeP := filepath.Join(dir, ".github/workflows/callee.yml")
+	callerP := filepath.Join(dir, ".github/workflows/caller.yml")
+	os.WriteFile(calleeP, []byte(callee), 0o644)
+	os.WriteFile(callerP, []byte(caller), 0o644)
+	res := c01LintFileCopy(dir, callerP)
+	if res.Err != nil || res.Panic != "" {
+		return nil, nil, fmt.Errorf("%v %s", res.Err, vTrunc(res.Panic, 200))
+	}
+	fileErrs = res.Errs
+	// AST-derived interface: callee linted first in the same run (default schedule of the
+	// controlled scheduler runs the files in argument order)
+	var all []*Error
+	var lerr error
+	vsched.Replay(vsched.Config{NumCPU: 1}, nil, func(x *vsched.Exec) string {
+		var out bytes.Buffer
+		l, e := NewLinter(&out, &LinterOptions{WorkingDir: dir})
+		if e != nil {
+			lerr = e
+			return ""
+		}
+		all, lerr = l.LintFiles([]string{calleeP, callerP}, nil)
+		return ""
+	})
+	if lerr != nil {
+		return nil, nil, lerr
+	}
+	for _, e := range all {
+		if strings.HasSuffix(e.Filepath, "caller.yml") {
+			astErrs = append(astErrs, e)
+		}
+	}
+	return
+}
+
+func c14ErrKey(errs []*Error) string {
+	var l []string
+	for _, e := range errs {
+		l = append(l, fmt.Sprintf("%d:%d:%s", e.Line, e.Column, e.Message))
+	}
+	return strings.Join(l, "\n")
 }
 
 func c14Workflows(t *testing.T, r *vReport, idx *int64, root string) {
@@ -395,36 +445,32 @@ func c14Workflows(t *testing.T, r *vReport, idx *int64, root string) {
 		// declaration order and absent keys: a required secret before / after one without the key
 		{{"SecOne", true, 0}, {"sectwo", false, 1}}, {{"SecOne", true, 0}, {"sectwo", false, 2}}, {{"SecOne", false, 1}, {"sectwo", true, 0}},
 		{{"SecOne", true, 0}, {"sectwo", false, 0}, {"secthree", false, 1}}}
+	lintBoth0 := c14LintBoth
+	// the callee's interface is what its workflow_call section declares, whatever other events
+	// stand before or after that section: every case is linted with 4 forms of the callee's `on:`
+	// (workflow_call alone; after push; after a workflow_dispatch with inputs of its own; before
+	// pull_request) and the caller's diagnostics must be the same
 	lintBoth := func(dir, callee, caller string) (fileErrs, astErrs []*Error, err error) {
-		calleeP := filepath.Join(dir, ".github/workflows/callee.yml")
-		callerP := filepath.Join(dir, ".github/workflows/caller.yml")
-		os.WriteFile(calleeP, []byte(callee), 0o644)
-		os.WriteFile(callerP, []byte(caller), 0o644)
-		res := c01LintFileCopy(dir, callerP)
-		if res.Err != nil || res.Panic != "" {
-			return nil, nil, fmt.Errorf("%v %s", res.Err, vTrunc(res.Panic, 200))
+		fileErrs, astErrs, err = lintBoth0(dir, callee, caller)
+		if err != nil || !strings.HasPrefix(callee, "on:\n  workflow_call:\n") || !strings.Contains(callee, "\njobs:\n") {
+			return
 		}
-		fileErrs = res.Errs
-		// AST-derived interface: callee linted first in the same run (default schedule of the
-		// controlled scheduler runs the files in argument order)
-		var all []*Error
-		var lerr error
-		vsched.Replay(vsched.Config{NumCPU: 1}, nil, func(x *vsched.Exec) string {
-			var out bytes.Buffer
-			l, e := NewLinter(&out, &LinterOptions{WorkingDir: dir})
+		key := c14ErrKey
+		forms := []string{
+			strings.Replace(callee, "on:\n  workflow_call:\n", "on:\n  push:\n  workflow_call:\n", 1),
+			strings.Replace(callee, "on:\n  workflow_call:\n", "on:\n  workflow_dispatch:\n    inputs:\n      dispatchonly:\n        type: boolean\n        required: true\n  workflow_call:\n", 1),
+			strings.Replace(callee, "\njobs:\n", "\n  pull_request:\njobs:\n", 1),
+		}
+		for fi, alt := range forms {
+			fe, ae, e := lintBoth0(dir, alt, caller)
+			r.Evaluations++
+			r.Transitions += 2
+			r.Validated += 2
 			if e != nil {
-				lerr = e
-				return ""
+				return nil, nil, fmt.Errorf("callee form %d: %v", fi+1, e)
 			}
-			all, lerr = l.LintFiles([]string{calleeP, callerP}, nil)
-			return ""
-		})
-		if lerr != nil {
-			return nil, nil, lerr
-		}
-		for _, e := range all {
-			if strings.HasSuffix(e.Filepath, "caller.yml") {
-				astErrs = append(astErrs, e)
+			if key(fe) != key(fileErrs) || key(ae) != key(astErrs) {
+				r.Violation(fmt.Sprintf("callee-events-change-interface:form%d", fi+1), fmt.Sprintf("the caller's diagnostics change when the callee's `on:` holds further events around workflow_call\n workflow_call alone: file route %q, AST route %q\n this form:          file route %q, AST route %q\ncallee:\n%s\ncaller:\n%s", key(fileErrs), key(astErrs), key(fe), key(ae), alt, caller), map[string]any{"desc": "callee events", "what": "callee-events", "family": fmt.Sprintf("form%d", fi+1), "src": caller, "callee": alt, "callee_base": callee})
 			}
 		}
 		return
@@ -697,7 +743,9 @@ func c14Workflows(t *testing.T, r *vReport, idx *int64, root string) {
 		// plain scalars that look like numbers to one reader or another (left out as implementation-
 		// defined: 0b11 and 1_000, which the YAML library still reads the YAML 1.1 way, and 1e400,
 		// whose value is out of range)
-		"nan", "inf", "Infinity", "-inf", "NaN", ".inf", "-.INF", ".nan", ".NaN", "0x10", "0o17", "1e3", "-1.5", "1.", ".5", "+7", "1e", "0x", "12abc", "1 2"}
+		"nan", "inf", "Infinity", "-inf", "NaN", ".inf", "-.INF", ".nan", ".NaN", "0x10", "0o17", "1e3", "-1.5", "1.", ".5", "+7", "1e", "0x", "12abc", "1 2",
+		// the other spellings of booleans and null; quoted scalars (strings, whatever they hold)
+		"True", "TRUE", "False", "FALSE", "~", "Null", "NULL", "\"3\"", "'3'", "\"true\"", "'null'", "\"0x10\"", "'~'"}
 	for _, ty := range []string{"string", "number", "boolean"} {
 		for _, v := range values {
 			*idx++
@@ -749,16 +797,31 @@ func c14HasKind(errs []*Error, kinds ...string) bool {
 func TestVerifC14(t *testing.T) {
 	r := vNewReport("C14")
 	defer r.Write(t)
-	r.Extra["rule"] = "every spec of the bundled popular-actions table x call sites {none, required, all, required minus each, one extra, re-cased} with references to every declared and one undeclared output; 343 local action interfaces (3 inputs over absent/optional/required/required+default/optional+default/required+empty default/required+falsy default) x 0-2 outputs x every subset of declared inputs + extra + re-cased; 256 reusable-workflow input interfaces (2 inputs over absent | type x required x default incl. empty and falsy defaults) x 7 secret sets (explicit / absent required key, empty body, both declaration orders) x 0-1 outputs x 8+ call sites (none, required, all re-cased, extra input, extra secret, inherit, inherit without inputs, undeclared input holding an expression, minus each), interface derived from the file and from the AST (callee linted first in the same run); 3 types x 12 typed values; derivation agreement over 3 types x 6 spellings of required x 7 of default x 3 of a secret's required (literal and expression values) x 2 call sites. oracle = set arithmetic on the declared interface. class = (family, call site, expected report counts); non-trivial = something must be reported"
+	r.Extra["rule"] = "every spec of the bundled popular-actions table x call sites {none, required, all, required minus each, one extra, re-cased} with references to every declared and one undeclared output; 343 local action interfaces (3 inputs over absent/optional/required/required+default/optional+default/required+empty default/required+falsy default) x 0-2 outputs x every subset of declared inputs + extra + re-cased; 256 reusable-workflow input interfaces (2 inputs over absent | type x required x default incl. empty and falsy defaults) x 7 secret sets (explicit / absent required key, empty body, both declaration orders) x 0-1 outputs x 8+ call sites (none, required, all re-cased, extra input, extra secret, inherit, inherit without inputs, undeclared input holding an expression, minus each), interface derived from the file and from the AST (callee linted first in the same run), every case with 4 forms of the callee's `on:` (other events before / after workflow_call); 3 types x 45 typed values (literals in every spelling of the YAML core schema, plain and quoted; expressions); derivation agreement over 3 types x 6 spellings of required x 7 of default x 3 of a secret's required (literal and expression values) x 2 call sites. oracle = set arithmetic on the declared interface. class = (family, call site, expected report counts); non-trivial = something must be reported"
 	r.Extra["assumptions"] = []string{"for bundled actions the table itself is the declaration (its content is not frozen)", "assignability per docs/checks.md: string <- string|number, number <- number, boolean <- anything, anything <- any"}
 	root := vTempDir(t, "c14-")
 	if raw := vReplayInput(); raw != nil {
 		var rp struct {
 			Desc, Src, Callee, What, Family string
 			ActionYml                       string `json:"action_yml"`
+			CalleeBase                      string `json:"callee_base"`
 			Want                            []string
 		}
 		jsonUnmarshal(raw, &rp)
+		if rp.What == "callee-events" {
+			dir := filepath.Join(root, "replay-ce")
+			vWriteFiles(t, dir, map[string]string{".git/HEAD": "x\n", ".github/workflows/.keep": ""})
+			for k := 0; k < 2; k++ {
+				f0, a0, e0 := c14LintBoth(dir, rp.CalleeBase, rp.Src)
+				f1, a1, e1 := c14LintBoth(dir, rp.Callee, rp.Src)
+				fmt.Printf("replay %d: caller\n%s\ncallee (workflow_call alone)\n%s\ncallee (this form)\n%s\nerrors %v %v\nfile route: %q vs %q\nAST route: %q vs %q\n", k, rp.Src, rp.CalleeBase, rp.Callee, e0, e1, c14ErrKey(f0), c14ErrKey(f1), c14ErrKey(a0), c14ErrKey(a1))
+				if e0 != nil || e1 != nil || c14ErrKey(f0) != c14ErrKey(f1) || c14ErrKey(a0) != c14ErrKey(a1) {
+					r.Violation("callee-events-change-interface:"+rp.Family, "the caller's diagnostics change when the callee's `on:` holds further events around workflow_call", rp)
+				}
+			}
+			r.Class("replay", true)
+			return
+		}
 		res := map[string]*regexp.Regexp{"missing-required-input": c14MissingRe, "undeclared-input": c14ExtraRe, "undeclared-output": c14PropRe,
 			"missing-required-secret": c14SecMissingRe, "undeclared-secret": c14SecExtraRe, "type-error": c14TypeRe}
 		if strings.HasPrefix(rp.Family, "reusable-workflow") {
